@@ -146,7 +146,7 @@ struct MAP : Proc {
         if constexpr (std::is_same_v<T, real_t>) put(out, o.process(mkreal(in, n)));
         else put(out, o.process(mkcmplx(in, n)));
     }
-    uint64_t state() override { return HS(o._accum, mix(HS(o._buf), (uint64_t)o._pos)); }
+    uint64_t state() override { auto& oo = o; return VF_TRY(oo, (uint64_t)HS(o._accum, mix(HS(o._buf), (uint64_t)o._pos)), (uint64_t)0); }
 };
 
 struct Config {
@@ -189,23 +189,23 @@ static std::vector<Config> make_configs(bool T) {
     // ---- direct FIR
     for (int nh : {2, 3, 4, 5, 7, 8, 16, 17, 31, 32, 33, 64, 100, 300}) {
         add(fmt("FirFilterR(%d)", nh), 1, 1,
-            mk<RR, FirFilterR>([nh] { return FirFilterR(lcg_arr(nh, 1000 + (uint64_t)nh)); }, [](FirFilterR& f) { return HS(f._d); }), nh > 64);
+            mk<RR, FirFilterR>([nh] { return FirFilterR(lcg_arr(nh, 1000 + (uint64_t)nh)); }, [](FirFilterR& f) { return VF_TRY(f, (uint64_t)(HS(o._d)), (uint64_t)0); }), nh > 64);
         add(fmt("FirFilterC(%d)", nh), 2, 1,
-            mk<CC, FirFilterC>([nh] { return FirFilterC(lcg_carr(nh, 2000 + (uint64_t)nh)); }, [](FirFilterC& f) { return HS(f._d); }), nh > 64);
+            mk<CC, FirFilterC>([nh] { return FirFilterC(lcg_carr(nh, 2000 + (uint64_t)nh)); }, [](FirFilterC& f) { return VF_TRY(f, (uint64_t)(HS(o._d)), (uint64_t)0); }), nh > 64);
     }
     // ---- FFT FIR: granules chosen so that k granules cross several block boundaries
     for (int nh : {1, 2, 3, 31, 32, 33, 100, 129}) {
         int block = (1 << nextpow2(2 * nh)) - nh + 1;
         for (int g : {1, 7, block / 2 + 1}) {
-            auto sf = [](FftFilter& f) { return mix(HS(f._x), mix(HS(f._olap), (uint64_t)f._nx)); };
+            auto sf = [](FftFilter& f) { return VF_TRY(f, (uint64_t)(mix(HS(o._x), mix(HS(o._olap), (uint64_t)o._nx))), (uint64_t)0); };
             add(fmt("FftFilter(real h%d,g%d)", nh, g), 1, g, mk<RR, FftFilter>([nh] { return FftFilter(lcg_arr(nh, 3000 + (uint64_t)nh)); }, sf), nh > 33);
             add(fmt("FftFilter(cmplx h%d,g%d)", nh, g), 2, g, mk<CC, FftFilter>([nh] { return FftFilter(lcg_carr(nh, 3500 + (uint64_t)nh)); }, sf), nh > 33);
         }
     }
     // ---- multirate
-    auto sfd = [](FIRDecimator& f) { return HS(f.d_); };
-    auto sfi = [](FIRInterpolator& f) { return HS(f.d_); };
-    auto sfr = [](FIRRateConverter& f) { return HS(f.d_); };
+    auto sfd = [](FIRDecimator& f) { return VF_TRY(f, (uint64_t)(HS(o.d_)), (uint64_t)0); };
+    auto sfi = [](FIRInterpolator& f) { return VF_TRY(f, (uint64_t)(HS(o.d_)), (uint64_t)0); };
+    auto sfr = [](FIRRateConverter& f) { return VF_TRY(f, (uint64_t)(HS(o.d_)), (uint64_t)0); };
     for (int M = 1; M <= 12; ++M) {
         add(fmt("FIRDecimator(%d)", M), 1, M, mk<RR, FIRDecimator>([M] { return FIRDecimator(M); }, sfd));
         add(fmt("FIRDecimator(%d,h)", M), 1, M, mk<RR, FIRDecimator>([M] { return FIRDecimator(M, sym_h(4 * M + 1, 41)); }, sfd));
@@ -233,15 +233,15 @@ static std::vector<Config> make_configs(bool T) {
     }
     // ---- delay, median, moving average
     for (int n : {1, 2, 5, 17}) {
-        add(fmt("DelayReal(%d)", n), 1, 1, mk<RR, DelayReal>([n] { return DelayReal(n); }, [](DelayReal& d) { return HS(d._buffer); }));
+        add(fmt("DelayReal(%d)", n), 1, 1, mk<RR, DelayReal>([n] { return DelayReal(n); }, [](DelayReal& d) { return VF_TRY(d, (uint64_t)(HS(o._buffer)), (uint64_t)0); }));
         add(fmt("DelayCmplx(init %d)", n), 2, 1,
-            mk<CC, DelayCmplx>([n] { return DelayCmplx(lcg_carr(n, 51)); }, [](DelayCmplx& d) { return HS(d._buffer); }));
+            mk<CC, DelayCmplx>([n] { return DelayCmplx(lcg_carr(n, 51)); }, [](DelayCmplx& d) { return VF_TRY(d, (uint64_t)(HS(o._buffer)), (uint64_t)0); }));
     }
     for (int ord : {3, 4, 5, 6, 7, 8, 9, 16, 33})
         for (double init : {0.0, -1.0})
             add(fmt("MedianFilter(%d,%g)", ord, init), 1, 1,
                 mk<RR, MedianFilter>([ord, init] { return MedianFilter(ord, init); },
-                                     [](MedianFilter& m) { return mix(HS(m._d), mix(HS(m._s), (uint64_t)m._i)); }));
+                                     [](MedianFilter& m) { return VF_TRY(m, (uint64_t)(mix(HS(o._d), mix(HS(o._s), (uint64_t)o._i))), (uint64_t)0); }));
     for (int n : {1, 2, 3, 7, 100}) {
         add(fmt("MAFilterR(%d)", n), 1, 1, [n]() -> std::unique_ptr<Proc> { return std::unique_ptr<Proc>(new MAP<real_t>(n)); });
         add(fmt("MAFilterC(%d)", n), 2, 1, [n]() -> std::unique_ptr<Proc> { return std::unique_ptr<Proc>(new MAP<cmplx_t>(n)); });
@@ -250,12 +250,12 @@ static std::vector<Config> make_configs(bool T) {
     for (int fl : {31, 32, 51})
         add(fmt("HilbertFilter(%d)", fl), 1, 1,
             mk<RR, HilbertFilter>([fl] { return HilbertFilter(fl, 0.05); },
-                                  [](HilbertFilter& h) { return mix(HS(h._fir._d), HS(h._d._buffer)); }));
+                                  [](HilbertFilter& h) { return VF_TRY(h, (uint64_t)(mix(HS(o._fir._d), HS(o._d._buffer))), (uint64_t)0); }));
     for (auto [fs, f] : std::vector<std::pair<int, double>>{{8, 1.0}, {8, -3.0}, {9, 2.0}, {8, 0.5}, {9, 4.4}, {5, 1.25}, {8000, 440.0}})
         add(fmt("Tuner(%d,%g)", fs, f), 2, fs <= 9 ? 3 : 1500,
-            mk<CC, Tuner>([fs = fs, f = f] { return Tuner(fs, f); }, [](Tuner& t) { return (uint64_t)t._phase; }), fs > 9);
+            mk<CC, Tuner>([fs = fs, f = f] { return Tuner(fs, f); }, [](Tuner& t) { return VF_TRY(t, (uint64_t)((uint64_t)o._phase), (uint64_t)0); }), fs > 9);
     // ---- AGC and dynamics
-    auto sfa = [](Agc& a) { return (uint64_t)0 * (uint64_t)(uintptr_t)&a; };
+    auto sfa = [](Agc& a) { return VF_TRY(a, (uint64_t)((uint64_t)0 * (uint64_t)(uintptr_t)&a), (uint64_t)0); };
     for (int avg : {1, 3, 100}) {
         add(fmt("Agc(real,avg%d)", avg), 1, 1, mk<RG, Agc>([avg] { return Agc(1.0, 60.0, avg, 0.05, 0.02); }, sfa));
         add(fmt("Agc(cmplx,avg%d)", avg), 2, 1, mk<CG, Agc>([avg] { return Agc(0.5, 40.0, avg); }, sfa));
@@ -263,18 +263,18 @@ static std::vector<Config> make_configs(bool T) {
     for (int zero = 0; zero < 2; ++zero) {
         double at = zero ? 0.0 : 0.001, rt = zero ? 0.0 : 0.002;
         add(fmt("Compressor(tc%d)", !zero), 1, 1,
-            mk<RG, Compressor>([at, rt] { return Compressor(8000, -20.0, 4, 6.0, at, rt); }, [](Compressor& c) { return HS(c.gs_); }));
+            mk<RG, Compressor>([at, rt] { return Compressor(8000, -20.0, 4, 6.0, at, rt); }, [](Compressor& c) { return VF_TRY(c, (uint64_t)(HS(o.gs_)), (uint64_t)0); }));
         add(fmt("Limiter(tc%d)", !zero), 1, 1,
-            mk<RG, Limiter>([at, rt] { return Limiter(8000, -15.0, 4.0, at, rt); }, [](Limiter& c) { return HS(c.gs_); }));
+            mk<RG, Limiter>([at, rt] { return Limiter(8000, -15.0, 4.0, at, rt); }, [](Limiter& c) { return VF_TRY(c, (uint64_t)(HS(o.gs_)), (uint64_t)0); }));
         add(fmt("NoiseGate(tc%d)", !zero), 1, 1,
             mk<RG, NoiseGate>([at, rt, zero] { return NoiseGate(8000, -12.0, at, rt, zero ? 0.0 : 0.0005); },
-                              [](NoiseGate& c) { return HS(c.lg_, (uint64_t)c.cA_); }));
+                              [](NoiseGate& c) { return VF_TRY(c, (uint64_t)(HS(o.lg_, (uint64_t)o.cA_)), (uint64_t)0); }));
     }
     // dynamics again with 16-sample granules: k granules span several release times, so a gain recovery sits inside the stream
-    add("Compressor(tc1,g16)", 1, 16, mk<RG, Compressor>([] { return Compressor(8000, -20.0, 4, 6.0, 0.0005, 0.002); }, [](Compressor& c) { return HS(c.gs_); }));
-    add("Compressor(hard,g16)", 1, 16, mk<RG, Compressor>([] { return Compressor(8000, -12.0, 8, 0.0, 0.0, 0.004); }, [](Compressor& c) { return HS(c.gs_); }));
-    add("Limiter(tc1,g16)", 1, 16, mk<RG, Limiter>([] { return Limiter(8000, -15.0, 4.0, 0.0, 0.002); }, [](Limiter& c) { return HS(c.gs_); }));
-    add("NoiseGate(tc1,g16)", 1, 16, mk<RG, NoiseGate>([] { return NoiseGate(8000, -12.0, 0.001, 0.002, 0.002); }, [](NoiseGate& c) { return HS(c.lg_, (uint64_t)c.cA_); }));
+    add("Compressor(tc1,g16)", 1, 16, mk<RG, Compressor>([] { return Compressor(8000, -20.0, 4, 6.0, 0.0005, 0.002); }, [](Compressor& c) { return VF_TRY(c, (uint64_t)(HS(o.gs_)), (uint64_t)0); }));
+    add("Compressor(hard,g16)", 1, 16, mk<RG, Compressor>([] { return Compressor(8000, -12.0, 8, 0.0, 0.0, 0.004); }, [](Compressor& c) { return VF_TRY(c, (uint64_t)(HS(o.gs_)), (uint64_t)0); }));
+    add("Limiter(tc1,g16)", 1, 16, mk<RG, Limiter>([] { return Limiter(8000, -15.0, 4.0, 0.0, 0.002); }, [](Limiter& c) { return VF_TRY(c, (uint64_t)(HS(o.gs_)), (uint64_t)0); }));
+    add("NoiseGate(tc1,g16)", 1, 16, mk<RG, NoiseGate>([] { return NoiseGate(8000, -12.0, 0.001, 0.002, 0.002); }, [](NoiseGate& c) { return VF_TRY(c, (uint64_t)(HS(o.lg_, (uint64_t)o.cA_)), (uint64_t)0); }));
     add("Agc(real,avg10,g16)", 1, 16, mk<RG, Agc>([] { return Agc(1.0, 40.0, 10, 0.05, 0.02); }, sfa));
     // adaptive filters that are trained on a fixed sequence and then LOCKED: the locked filter is a streaming FIR
     for (int len : {2, 5}) {
@@ -284,21 +284,21 @@ static std::vector<Config> make_configs(bool T) {
                 for (int i = 0; i < 64; ++i) { x[i] = lcg_val(700, (uint64_t)i); d[i] = lcg_val(701, (uint64_t)i); }
                 f.process(x, d);
                 f.set_lock_coeffs(true);
-                return f; }, [](LmsFilterR& f) { return mix(HS(f._u), HS(f._w)); }));
+                return f; }, [](LmsFilterR& f) { return VF_TRY(f, (uint64_t)(mix(HS(o._u), HS(o._w))), (uint64_t)0); }));
         add(fmt("NLMS<cmplx>(%d,locked)", len), 4, 1, mk<AC, LmsFilterC>([=] {
                 LmsFilterC f(len, 0.5, LmsType::NLMS, 0.99);
                 arr_cmplx x(64), d(64);
                 for (int i = 0; i < 64; ++i) { x[i] = cmplx_t(lcg_val(702, (uint64_t)i), lcg_val(703, (uint64_t)i)); d[i] = cmplx_t(lcg_val(704, (uint64_t)i), 0.5); }
                 f.process(x, d);
                 f.set_lock_coeffs(true);
-                return f; }, [](LmsFilterC& f) { return mix(HS(f._u), HS(f._w)); }));
+                return f; }, [](LmsFilterC& f) { return VF_TRY(f, (uint64_t)(mix(HS(o._u), HS(o._w))), (uint64_t)0); }));
         add(fmt("RLS<real>(%d,locked)", len), 2, 1, mk<AR, RlsFilterR>([=] {
                 RlsFilterR f(len, 0.98, 10.0);
                 arr_real x(64), d(64);
                 for (int i = 0; i < 64; ++i) { x[i] = lcg_val(705, (uint64_t)i); d[i] = lcg_val(706, (uint64_t)i); }
                 f.process(x, d);
                 f.set_lock_coeffs(true);
-                return f; }, [](RlsFilterR& f) { return mix(HS(f._u), mix(HS(f._w), HS(f._p))); }));
+                return f; }, [](RlsFilterR& f) { return VF_TRY(f, (uint64_t)(mix(HS(o._u), mix(HS(o._w), HS(o._p)))), (uint64_t)0); }));
     }
     // ---- adaptive filters
     for (int len : {2, 4, 8}) {
@@ -306,14 +306,14 @@ static std::vector<Config> make_configs(bool T) {
             LmsType ty = nl ? LmsType::NLMS : LmsType::LMS;
             double mu = nl ? 0.5 : 0.05;
             add(fmt("%s<real>(%d)", nl ? "NLMS" : "LMS", len), 2, 1,
-                mk<AR, LmsFilterR>([=] { return LmsFilterR(len, mu, ty, 0.999); }, [](LmsFilterR& f) { return mix(HS(f._u), HS(f._w)); }));
+                mk<AR, LmsFilterR>([=] { return LmsFilterR(len, mu, ty, 0.999); }, [](LmsFilterR& f) { return VF_TRY(f, (uint64_t)(mix(HS(o._u), HS(o._w))), (uint64_t)0); }));
             add(fmt("%s<cmplx>(%d)", nl ? "NLMS" : "LMS", len), 4, 1,
-                mk<AC, LmsFilterC>([=] { return LmsFilterC(len, mu, ty, 1.0); }, [](LmsFilterC& f) { return mix(HS(f._u), HS(f._w)); }));
+                mk<AC, LmsFilterC>([=] { return LmsFilterC(len, mu, ty, 1.0); }, [](LmsFilterC& f) { return VF_TRY(f, (uint64_t)(mix(HS(o._u), HS(o._w))), (uint64_t)0); }));
         }
         add(fmt("RLS<real>(%d)", len), 2, 1,
-            mk<AR, RlsFilterR>([=] { return RlsFilterR(len, 0.98, 10.0); }, [](RlsFilterR& f) { return mix(HS(f._u), mix(HS(f._w), HS(f._p))); }));
+            mk<AR, RlsFilterR>([=] { return RlsFilterR(len, 0.98, 10.0); }, [](RlsFilterR& f) { return VF_TRY(f, (uint64_t)(mix(HS(o._u), mix(HS(o._w), HS(o._p)))), (uint64_t)0); }));
         add(fmt("RLS<cmplx>(%d)", len), 4, 1,
-            mk<AC, RlsFilterC>([=] { return RlsFilterC(len, 0.95, 1.0); }, [](RlsFilterC& f) { return mix(HS(f._u), mix(HS(f._w), HS(f._p))); }));
+            mk<AC, RlsFilterC>([=] { return RlsFilterC(len, 0.95, 1.0); }, [](RlsFilterC& f) { return VF_TRY(f, (uint64_t)(mix(HS(o._u), mix(HS(o._w), HS(o._p)))), (uint64_t)0); }));
     }
     (void)T;
     return C;
@@ -604,5 +604,6 @@ int main(int argc, char** argv) {
             for (uint64_t m = 1; m < runs; ++m) ctx.nontrivial_key(mix(ctx.cur_hash, m));
         }
     }
+    if (vf::private_state_missing()) ctx.note("private state of some configurations is not readable in this tree (renamed members): state counts degraded, verdict unaffected");
     return ctx.finish();
 }
